@@ -20,15 +20,23 @@ RULE = (
 ASSUMPTIONS = ["assignment means setattr / augmented assignment through the object's own __setattr__ "
                "(object.__setattr__ and __dict__ poking bypass any Python class and are out of scope)"]
 GATES = ["attempts", "existing_public", "existing_private", "property_names", "fresh_names", "augmented",
-         "unknown_stub_messages", "msm_messages", "string_messages"]
+         "unknown_stub_messages", "msm_messages", "string_messages", "oversize_messages", "threaded_cases",
+         "threaded_switches"]
 
 FRESH = ("foo", "DF9999", "newattr", "x", "Payload", "IDF999", "NSatellites", "identity_", "a_01", "DF002_01")
 VALUES = (0, 1, -1, 3.5, "x", "", None, b"\x00", [], {}, True, 2**70)
 
 
 def snapshot(m):
-    d = dict(m.__dict__)
-    return (m.payload, m.identity, tuple(d.items()), str(m), repr(m), m.serialize(), m.ismsm)
+    """Observable state: payload, identity, PUBLIC attribute values, string form, repr, serialised bytes.
+    Private slots are deliberately left out (a memoised str()/serialize() may legitimately add one)."""
+    try:
+        ser = m.serialize()
+    except Exception as e:  # e.g. payload too long for the 16-bit length: part of the observable state too
+        ser = ("raises", type(e).__name__)
+    s_, r_ = str(m), repr(m)
+    d = {k: v for k, v in m.__dict__.items() if not k.startswith("_")}
+    return (m.payload, m.identity, tuple(d.items()), s_, r_, ser, m.ismsm)
 
 
 def snap_equal(a, b):
@@ -119,8 +127,90 @@ def run_case(ctx, payload, labelmsm, seedtag, nattempts, tag):
     ctx.sample({"tag": tag, "payload_hex": payload[:24].hex(), "attempted": tried[:10]}, limit=2)
 
 
+def threaded_case(ctx, payload, seedtag, tag):
+    """Assignment attempts from a second thread while the first keeps calling str()/repr()/serialize()
+    (first, uncached calls included), with forced switches inside the library."""
+    import sys
+    import threading
+
+    from pyrtcm import RTCMMessage
+    from pyrtcm.exceptions import RTCMMessageError
+
+    from vf import REPO_SRC, monitors
+
+    rng = random.Random(seedtag)
+    params = {"payload": payload.hex(), "seedtag": seedtag, "tag": tag, "threaded": True}
+    try:
+        msgs = [RTCMMessage(payload=payload) for _ in range(6)]
+    except Exception:
+        return
+    ref = RTCMMessage(payload=payload)
+    before = snapshot(ref)
+    names = [k for k in ref.__dict__] + list(FRESH[:4])
+    accepted = []
+    wrong = []
+    stop = threading.Event()
+
+    def reader():
+        for m in msgs:  # first (uncached) calls happen while the writer is active
+            for _ in range(3):
+                str(m), repr(m)
+                try:
+                    m.serialize()
+                except Exception:
+                    pass
+        stop.set()
+
+    def writer():
+        r = random.Random(seedtag + 1)
+        while not stop.is_set():
+            m = r.choice(msgs)
+            name = r.choice(names)
+            try:
+                setattr(m, name, r.choice(VALUES))
+                accepted.append(name)
+            except RTCMMessageError:
+                pass
+            except Exception as e:
+                wrong.append((name, type(e).__name__))
+
+    old = sys.getswitchinterval()
+    sys.setswitchinterval(1e-6)
+    inj = monitors.YieldInjector(REPO_SRC, rng, prob=0.05)
+    inj.start()
+    try:
+        t1, t2 = threading.Thread(target=reader), threading.Thread(target=writer)
+        t2.start()
+        t1.start()
+        t1.join()
+        stop.set()
+        t2.join()
+    finally:
+        inj.stop()
+        sys.setswitchinterval(old)
+    ctx.hit("threaded_cases")
+    ctx.hit("threaded_switches", inj.switches)
+    if accepted:
+        ctx.violation("assignment-accepted", f"{tag}: {len(accepted)} assignments from a second thread were accepted "
+                      f"while the first thread called str()/serialize() (e.g. {accepted[:3]})", params)
+        return
+    if wrong:
+        ctx.violation("assignment-wrong-error", f"{tag}: concurrent assignment raised {wrong[0]}", params)
+        return
+    for m in msgs:
+        if not snap_equal(before, snapshot(m)):
+            ctx.violation("state-changed", f"{tag}: message changed under concurrent assignment attempts", params)
+            return
+    ctx.case(payload + b"|threads", True)
+
+
 def run(ctx):
     rng = ctx.rng
+    # oversize payloads (only constructible directly): serialize() cannot frame them, assignment must still fail
+    for _ in range(2 if ctx.quick else 20):
+        big = streams.rand_unknown_payload(rng, rng.choice((65536, 70000, 1024, 2000)))
+        run_case(ctx, big, 1, rng.getrandbits(40), rng.choice((3, 10)), "oversize")
+        ctx.hit("oversize_messages")
     ids = [i for i in refmodel.identities() if refmodel.reachable(i)]
     for k, identity in enumerate(ids):
         if not ctx.mine(k):
@@ -140,7 +230,13 @@ def run(ctx):
     for _ in range(ctx.n(4000, 60000)):
         run_case(ctx, streams.rand_unknown_payload(rng), 1, rng.getrandbits(40), rng.choice((1, 5, 20)), "unknown")
         ctx.hit("unknown_stub_messages")
+    for _ in range(ctx.n(64, 1600)):
+        pl = streams.rand_defined_payload(rng) if rng.random() < 0.8 else streams.rand_unknown_payload(rng)
+        threaded_case(ctx, pl, rng.getrandbits(40), "threads")
 
 
 def replay(ctx, p):
+    if p.get("threaded"):
+        threaded_case(ctx, bytes.fromhex(p["payload"]), p["seedtag"], p["tag"])
+        return
     run_case(ctx, bytes.fromhex(p["payload"]), p["labelmsm"], p["seedtag"], p["n"], p["tag"])
